@@ -618,4 +618,123 @@ theorem C01_lex_real (c : Char) (n : List Char) (d : Char) (m rest : List Char)
 
 example : lexOne ("12.50".toList ++ " * x".toList) = some (⟨.real, "12.50".toList⟩, " * x".toList) := by decide
 
+/-! ### The lengths the scanners report lie inside the text -/
+
+theorem strLen_bounds (cs : List Char) : ∀ n, strLen cs = some n → 0 < n ∧ n ≤ cs.length := by
+  fun_induction strLen cs <;> intro n h
+  all_goals simp_all
+  all_goals first
+    | omega
+    | (obtain ⟨a, ha, rfl⟩ := h; rename_i ih; have := ih a ha; omega)
+    | (rename_i ih; subst h; simp at *; omega)
+    | skip
+
+theorem commentLen_bounds (cs : List Char) : ∀ n, commentLen cs = some n → 0 < n ∧ n ≤ cs.length := by
+  fun_induction commentLen cs <;> intro n h
+  all_goals simp_all
+  all_goals first
+    | omega
+    | (obtain ⟨a, ha, rfl⟩ := h; rename_i ih; have := ih a ha; omega)
+    | skip
+
+theorem digitsLen_le (cs : List Char) : digitsLen cs ≤ cs.length := by
+  unfold digitsLen; exact (List.takeWhile_sublist _).length_le
+
+theorem nameLen_le (cs : List Char) : nameLen cs ≤ cs.length := by
+  unfold nameLen; exact (List.takeWhile_sublist _).length_le
+
+theorem expLen_bounds (cs : List Char) : ∀ n, expLen cs = some n → 0 < n ∧ n ≤ cs.length := by
+  intro n h
+  unfold expLen at h
+  split at h
+  · cases h
+  · rename_i e r
+    split at h
+    · split at h
+      · rename_i r'
+        split at h
+        · simp only [Option.some.injEq] at h
+          have := digitsLen_le r'
+          subst h; simp only [List.length_cons]; omega
+        · cases h
+      · split at h
+        · simp only [Option.some.injEq] at h
+          have := digitsLen_le r
+          subst h; simp only [List.length_cons]; omega
+        · cases h
+    · cases h
+
+theorem fracLen_bounds (cs : List Char) : ∀ n, fracLen cs = some n → 0 < n ∧ n ≤ cs.length := by
+  intro n h
+  unfold fracLen at h
+  have hd := digitsLen_le cs
+  dsimp only at h
+  split at h
+  · split at h
+    · rename_i e he
+      have := expLen_bounds _ e he
+      simp only [List.length_drop] at this
+      simp only [Option.some.injEq] at h
+      omega
+    · simp only [Option.some.injEq] at h
+      omega
+  · cases h
+
+theorem lexNumber_bounds (cs : List Char) (h0 : 0 < digitsLen cs) :
+    0 < (lexNumber cs).2 ∧ (lexNumber cs).2 ≤ cs.length := by
+  have hd := digitsLen_le cs
+  unfold lexNumber
+  dsimp only
+  split
+  · rename_i r heq
+    have hl : r.length + 1 + digitsLen cs = cs.length := by
+      have := congrArg List.length heq
+      simp only [List.length_drop, List.length_cons] at this
+      omega
+    split
+    · rename_i f hf
+      have := fracLen_bounds r f hf
+      simp only; omega
+    · split
+      · rename_i e he
+        have := expLen_bounds r e he
+        simp only; omega
+      · simp only; omega
+  · rename_i r hne
+    split
+    · rename_i e he
+      have := expLen_bounds _ e he
+      simp only [List.length_drop] at this
+      simp only; omega
+    · simp only; omega
+
+theorem lexName_bounds (cs : List Char) (h0 : 0 < nameLen cs) :
+    0 < (lexName cs).2 ∧ (lexName cs).2 ≤ cs.length := by
+  have hd := nameLen_le cs
+  unfold lexName
+  dsimp only
+  split
+  · rename_i c r heq
+    have hl : r.length + 2 + nameLen cs = cs.length := by
+      have := congrArg List.length heq
+      simp only [List.length_drop, List.length_cons] at this
+      omega
+    split
+    · have h2 := nameLen_le (c :: r)
+      simp only [List.length_cons] at h2
+      split
+      · rename_i d r' heq2
+        have hl2 : r'.length + 2 + nameLen (c :: r) = r.length + 1 := by
+          have := congrArg List.length heq2
+          simp only [List.length_drop, List.length_cons] at this
+          omega
+        have h3 := nameLen_le (d :: r')
+        simp only [List.length_cons] at h3
+        split
+        · simp only; omega
+        · simp only; omega
+      · simp only; omega
+    · simp only; omega
+  · simp only; omega
+
 end GV.Props.C01l
